@@ -3,6 +3,8 @@ package vegeta
 import (
 	"net/http"
 	"strings"
+
+	"github.com/mailru/easyjson/jlexer"
 )
 
 func verifHeaderSnapshot(h http.Header) map[string][]string {
@@ -237,4 +239,47 @@ func verif_harness_C14_read_all() {
 	verif_assert(len(tgts[1].Header) == 2 && len(tgts[1].Header["K"]) == d && len(tgts[1].Header["B"]) == 1, "C14.readall.second-target-own-headers")
 	verif_assert(len(tgts[2].Header) == 1 && len(tgts[2].Header["K"]) == d, "C14.readall.third-target-only-defaults")
 	verif_assert(tgts[1].Method == "POST" && tgts[0].Method == "GET", "C14.readall.methods")
+}
+
+// C14 (L) — target lines far longer than any I/O buffer: two JSON targets, the
+// first with a 6 000 / 70 000 byte URL, the second short; and an http-format
+// document with a 6 000-byte header value. Each decodes to exactly its target
+// (the record decoder of the JSON format is replaced by a recorder that keeps
+// the line it was handed), then ErrNoTargets.
+//
+//verif:harness unwind=64 replay=none
+func verif_harness_C14_long_lines() {
+	if !verif_is_symbolic_run() {
+		return
+	}
+	n := []int{6000, 70000}[verif_choose("line_length", 2)]
+	long := make([]byte, n)
+	for i := range long {
+		long[i] = byte('a' + i%26)
+	}
+	if verif_nondet_bool("json_format") {
+		line1 := `{"method":"GET","url":"http://h/` + string(long) + `"}`
+		line2 := `{"method":"POST","url":"http://h/2"}`
+		var handed []int
+		verif_stub("(*github.com/tsenart/vegeta/v12/lib.jsonTarget).decode", func(t *jsonTarget, in *jlexer.Lexer) {
+			handed = append(handed, len(in.Data))
+			t.Method, t.URL = "GET", "http://h/x"
+		})
+		tr := NewJSONTargeter(&verifBigSrc{data: []byte(line1 + "\n" + line2 + "\n")}, nil, nil)
+		var a, b, c Target
+		verif_assert(tr(&a) == nil && tr(&b) == nil, "C14.long.every-line-decodes")
+		verif_assert(len(handed) == 2 && handed[0] == len(line1) && handed[1] == len(line2), "C14.long.each-target-line-handed-over-whole")
+		verif_assert(tr(&c) == ErrNoTargets, "C14.long.then-no-targets")
+		return
+	}
+	if n > 6000 {
+		return // bufio.Scanner's documented 64 KiB line limit applies to the http format
+	}
+	doc := "GET http://h/1\nX-Long: " + string(long) + "\n\nGET http://h/2\n"
+	tr := NewHTTPTargeter(&verifBigSrc{data: []byte(doc)}, nil, nil)
+	var a, b, c Target
+	verif_assert(tr(&a) == nil && tr(&b) == nil, "C14.long.every-line-decodes")
+	verif_assert(a.URL == "http://h/1" && len(a.Header["X-Long"]) == 1 && len(a.Header["X-Long"][0]) == n && b.URL == "http://h/2" && len(b.Header) == 0,
+		"C14.long.each-target-exactly-as-written")
+	verif_assert(tr(&c) == ErrNoTargets, "C14.long.then-no-targets")
 }
